@@ -44,6 +44,8 @@ Lemma Rltb_true : forall a b, Rltb a b = true <-> a < b.
 Proof. intros; unfold Rltb; destruct (Rlt_dec a b); split; intros; try congruence; tauto. Qed.
 Lemma Rltb_false : forall a b, Rltb a b = false <-> ~ a < b.
 Proof. intros; unfold Rltb; destruct (Rlt_dec a b); split; intros; try congruence; tauto. Qed.
+Lemma Rleb_false : forall a b, Rleb a b = false <-> ~ a <= b.
+Proof. intros; unfold Rleb; destruct (Rle_dec a b); split; intros; try congruence; tauto. Qed.
 Lemma Reqb_false : forall a b, Reqb a b = false <-> a <> b.
 Proof. intros; unfold Reqb; destruct (Req_EM_T a b); split; intros; try congruence; tauto. Qed.
 
@@ -57,9 +59,9 @@ Definition reject_class (tiny : R) (prim : part R) (a e : R) (t : trig R) : opti
   else if Req_EM_T e 1 then Some 1%Z
   else if Rlt_dec e 0 then Some 2%Z
   else if Rlt_dec 1 e then (if Rlt_dec 0 a then Some 3%Z else
-         if Rlt_dec (e * cf t) (Ropp 1) then Some 5%Z else if Rlt_dec (pm prim) tiny then Some 6%Z else None)
+         if Rlt_dec (e * cf t) (Ropp 1) then Some 5%Z else if Rle_dec (pm prim) tiny then Some 6%Z else None)
   else if Rlt_dec a 0 then Some 4%Z
-  else if Rlt_dec (e * cf t) (Ropp 1) then Some 5%Z else if Rlt_dec (pm prim) tiny then Some 6%Z else None.
+  else if Rlt_dec (e * cf t) (Ropp 1) then Some 5%Z else if Rle_dec (pm prim) tiny then Some 6%Z else None.
 
 Lemma from_orbit_decision : forall tiny G prim m a e t,
   match reject_class tiny prim a e t with
@@ -67,18 +69,18 @@ Lemma from_orbit_decision : forall tiny G prim m a e t,
   | None => exists p, from_orbit_err RNum tiny G prim m a e t = inr p
   end.
 Proof.
-  intros. unfold reject_class, from_orbit_err. cbn [neqb nltb none nzero nneg nmul RNum].
-  unfold Reqb, Rltb.
+  intros. unfold reject_class, from_orbit_err. cbn [neqb nltb nleb none nzero nneg nmul RNum].
+  unfold Reqb, Rltb, Rleb.
   destruct (Req_EM_T a 0); [reflexivity|].
   destruct (Req_EM_T e 1); [reflexivity|].
   destruct (Rlt_dec e 0); [reflexivity|].
   destruct (Rlt_dec 1 e).
   - destruct (Rlt_dec 0 a); [reflexivity|].
     destruct (Rlt_dec (e * cf t) (Ropp 1)); [reflexivity|].
-    destruct (Rlt_dec (pm prim) tiny); [reflexivity|]. eexists; reflexivity.
+    destruct (Rle_dec (pm prim) tiny); [reflexivity|]. eexists; reflexivity.
   - destruct (Rlt_dec a 0); [reflexivity|].
     destruct (Rlt_dec (e * cf t) (Ropp 1)); [reflexivity|].
-    destruct (Rlt_dec (pm prim) tiny); [reflexivity|]. eexists; reflexivity.
+    destruct (Rle_dec (pm prim) tiny); [reflexivity|]. eexists; reflexivity.
 Qed.
 
 (* each invalid class => its error code *)
@@ -89,7 +91,7 @@ Lemma reject_rules : forall tiny G prim m a e t,
   (1 < e -> 0 < a -> from_orbit_err RNum tiny G prim m a e t = inl 3%Z) /\
   (0 <= e < 1 -> a < 0 -> from_orbit_err RNum tiny G prim m a e t = inl 4%Z) /\
   ((0 <= e < 1 /\ 0 < a) \/ (1 < e /\ a < 0) -> e * cf t < -1 -> from_orbit_err RNum tiny G prim m a e t = inl 5%Z) /\
-  ((0 <= e < 1 /\ 0 < a) \/ (1 < e /\ a < 0) -> -1 <= e * cf t -> pm prim < tiny ->
+  ((0 <= e < 1 /\ 0 < a) \/ (1 < e /\ a < 0) -> -1 <= e * cf t -> pm prim <= tiny ->
       from_orbit_err RNum tiny G prim m a e t = inl 6%Z).
 Proof.
   intros. pose proof (from_orbit_decision tiny G prim m a e t) as D. unfold reject_class in D.
@@ -97,6 +99,7 @@ Proof.
   repeat match type of D with
   | context [Req_EM_T ?x ?y] => destruct (Req_EM_T x y); try lra
   | context [Rlt_dec ?x ?y] => destruct (Rlt_dec x y); try lra
+  | context [Rle_dec ?x ?y] => destruct (Rle_dec x y); try lra
   end; try exact D; try (destruct H; lra); try contradiction.
 Qed.
 
@@ -105,13 +108,14 @@ Definition shape_ok (a e : R) : Prop := (0 <= e < 1 /\ 0 < a) \/ (1 < e /\ a < 0
 
 Lemma accepted_is_valid : forall tiny G prim m a e t p,
   from_orbit_err RNum tiny G prim m a e t = inr p ->
-  shape_ok a e /\ -1 <= e * cf t /\ tiny <= pm prim.
+  shape_ok a e /\ -1 <= e * cf t /\ tiny < pm prim.
 Proof.
   intros tiny G prim m a e t p H.
   pose proof (from_orbit_decision tiny G prim m a e t) as D. unfold reject_class in D. unfold shape_ok.
   repeat match type of D with
   | context [Req_EM_T ?x ?y] => destruct (Req_EM_T x y)
   | context [Rlt_dec ?x ?y] => destruct (Rlt_dec x y)
+  | context [Rle_dec ?x ?y] => destruct (Rle_dec x y)
   end; try (rewrite D in H; discriminate); repeat split; try lra; first [ right; lra | left; lra ].
 Qed.
 
@@ -136,7 +140,7 @@ Record invariants (G m a e : R) (prim p : part R) (t : trig R) : Prop := {
 }.
 
 Lemma from_orbit_invariants : forall tiny G prim m a e t,
-  trig_ok t -> 0 < G * (m + pm prim) -> shape_ok a e -> -1 < e * cf t -> tiny <= pm prim ->
+  trig_ok t -> 0 < G * (m + pm prim) -> shape_ok a e -> -1 < e * cf t -> tiny < pm prim ->
   exists p, from_orbit_err RNum tiny G prim m a e t = inr p /\ invariants G m a e prim p t.
 Proof.
   intros tiny G prim m a e t [HO [Ho [Hf Hi]]] Hmu Hsh Hcf Htiny.
@@ -148,19 +152,19 @@ Proof.
     destruct (Rlt_dec e 0); [destruct Hsh; lra|].
     destruct (Rlt_dec 1 e).
     - destruct (Rlt_dec 0 a); [destruct Hsh; lra|].
-      destruct (Rlt_dec (e * cf t) (Ropp 1)); [lra|]. destruct (Rlt_dec (pm prim) tiny); [lra|reflexivity].
+      destruct (Rlt_dec (e * cf t) (Ropp 1)); [lra|]. destruct (Rle_dec (pm prim) tiny); [lra|reflexivity].
     - destruct (Rlt_dec a 0); [destruct Hsh; lra|].
-      destruct (Rlt_dec (e * cf t) (Ropp 1)); [lra|]. destruct (Rlt_dec (pm prim) tiny); [lra|reflexivity]. }
+      destruct (Rlt_dec (e * cf t) (Ropp 1)); [lra|]. destruct (Rle_dec (pm prim) tiny); [lra|reflexivity]. }
   rewrite Hrc in D. destruct D as [p Hp]. exists p. split; [exact Hp|].
   (* compute p *)
-  unfold from_orbit_err in Hp. cbn [neqb nltb none nzero nneg nmul nadd nsub ndiv nsqrt RNum] in Hp.
+  unfold from_orbit_err in Hp. cbn [neqb nltb nleb none nzero nneg nmul nadd nsub ndiv nsqrt RNum] in Hp.
   assert (E0 : Reqb a 0 = false) by (apply Reqb_false; destruct Hsh; lra).
   assert (E1 : Reqb e 1 = false) by (apply Reqb_false; destruct Hsh; lra).
   assert (E2 : Rltb e 0 = false) by (apply Rltb_false; destruct Hsh; lra).
   assert (E3 : (if Rltb 1 e then Rltb 0 a else Rltb a 0) = false).
   { destruct (Rltb 1 e) eqn:K; [apply Rltb_true in K|apply Rltb_false in K]; apply Rltb_false; destruct Hsh; lra. }
   assert (E5 : Rltb (e * cf t) (Ropp 1) = false) by (apply Rltb_false; lra).
-  assert (E6 : Rltb (pm prim) tiny = false) by (apply Rltb_false; lra).
+  assert (E6 : Rleb (pm prim) tiny = false) by (apply Rleb_false; lra).
   rewrite E0, E1, E2, E3, E5, E6 in Hp. injection Hp as Hp. subst p. cbn [pm px py pz pvx pvy pvz].
   set (mu := G * (m + pm prim)) in *.
   set (q := 1 - e*e) in *. set (d := 1 + e * cf t) in *.
